@@ -89,19 +89,26 @@ struct RState {
   double pausedUntil = -1e18;
   int susp = -1;
   Ctx suspCtx;
+  std::string suspInst;  // plugin instance that returned ASYNC_PAUSED
 };
 
 struct Model {
   const Cfg& cfg;
   std::vector<RState> st;
   std::set<std::string> uuids;
+  bool keyDeadline = false;  // include the suspended chain's remaining prekill window in the key
   explicit Model(const Cfg& c) : cfg(c), st(c.rulesets.size()) {}
 
-  std::string key(double now) const {
+  std::string key(double now, bool withDeadline = true) const {
     std::ostringstream o;
     for (auto& s : st) {
       double rem = s.pausedUntil - now;
-      o << "[" << (rem > 0 ? rem : 0) << "," << s.susp << "]";
+      o << "[" << (rem > 0 ? rem : 0) << "," << s.susp;
+      if (keyDeadline && withDeadline && s.susp >= 0) {
+        double left = s.suspCtx.deadline - now;
+        o << ",w" << (left >= 0 ? left : -1);
+      }
+      o << "]";
     }
     return o.str();
   }
@@ -147,9 +154,11 @@ struct Model {
       int start = -1;
       Ctx ctx;
       bool resumed = false;
+      std::string wantInst;
       if (s.susp >= 0) {
         start = s.susp;
         ctx = s.suspCtx;
+        wantInst = s.suspInst;
         s.susp = -1;
         resumed = true;
       } else if (fired >= 0) {
@@ -163,6 +172,8 @@ struct Model {
         if (!(err = expect(rs.actions[a].id, "run")).empty())
           return std::string(resumed ? "resume: " : "chain-start: ") + err;
         const auto& c = calls[k];
+        if (resumed && (int)a == start && c.instance != wantInst)
+          return "resume: chain resumed on plugin instance " + c.instance + " but " + wantInst + " was suspended";
         if (c.ruleset != ctx.ruleset || c.group != ctx.group)
           return "ctx-names: action " + c.id + " saw ruleset='" + c.ruleset + "' group='" + c.group + "' expected '" +
                  ctx.ruleset + "'/'" + ctx.group + "'";
@@ -179,7 +190,7 @@ struct Model {
                  ctx.uuid;
         }
         int ret = c.ret;
-        double tret = c.t;  // virtual time when the action ran (== now unless it slept)
+        double tret = c.tEnd;  // virtual time when the action returned (== now unless it slept)
         k++;
         if (ret == 0) continue;
         if (ret == 1) {
@@ -189,6 +200,7 @@ struct Model {
         }
         s.susp = (int)a;
         s.suspCtx = ctx;
+        s.suspInst = c.instance;
         break;
       }
     }
@@ -239,6 +251,10 @@ struct Options {
   // extra per-execution hook: called after the run with the call log to apply property-specific rules
   std::function<std::string(const Cfg&, const Hist&, const std::vector<sim::Call>&)> extraRule;
   std::function<int(const std::string& id)> arity;  // choices for plugin id (default 3)
+  std::function<void()> setupWorld;           // once per configuration
+  std::function<void(int tick)> beforeTick;   // scripted environment step
+  bool keyDeadline = false;
+  int hookArity = 2;                          // verif_hook poll: 0 = finished, 1 = still running
 };
 
 // Explore one configuration to fixpoint. Reports into r.
@@ -247,8 +263,10 @@ inline void exploreConfig(const std::string& prop, const std::string& klass, con
   std::map<std::string, Hist> seen;
   std::deque<std::string> frontier;
   std::string json = cfg.json();
+  if (opt.setupWorld) opt.setupWorld();
   {
     Model m(cfg);
+    m.keyDeadline = opt.keyDeadline;
     std::string k0 = m.key(0);
     seen[k0] = {};
     frontier.push_back(k0);
@@ -276,8 +294,10 @@ inline void exploreConfig(const std::string& prop, const std::string& klass, con
           r.violate(prop + "|" + klass + "|harness:config-rejected", err + "\n" + json);
           return;
         }
+        // one choice stream per tick: replayed from H for old ticks, drawn from the explorer for the new one
         size_t tickNo = 0, pos = 0;
-        sim::decide = [&](const std::string& id, const std::string&) -> int {
+        std::vector<int> drawn;
+        auto draw = [&](int arity) -> int {
           size_t t = (size_t)sim::curTick - 1;
           if (t != tickNo) {
             tickNo = t;
@@ -290,15 +310,16 @@ inline void exploreConfig(const std::string& prop, const std::string& klass, con
             }
             return H[t].choices[pos++];
           }
-          return ch.choose(opt.arity ? opt.arity(id) : 3);
+          int c = ch.choose(arity);
+          drawn.push_back(c);
+          return c;
         };
-        auto out = sim::runTicks(*o, (int)H.size() + 1, nullptr,
+        sim::decide = [&](const std::string& id, const std::string&) -> int { return draw(opt.arity ? opt.arity(id) : 3); };
+        sim::hookDecide = [&](const std::string&, long, int) -> bool { return draw(opt.hookArity) == 0; };
+        auto out = sim::runTicks(*o, (int)H.size() + 1, opt.beforeTick,
                                  [&](int k) { return (double)((size_t)k <= H.size() ? H[k - 1].dt : dt); });
         Hist H2 = H;
-        H2.push_back({dt, {}});
-        // choices of the new tick in call order
-        for (auto& c : sim::calls)
-          if (c.method == "run" && c.tick == (int)H.size() + 1) H2.back().choices.push_back(c.ret);
+        H2.push_back({dt, drawn});
         std::string where = "config " + cfg.brief() + " history " + histStr(H2);
         if (out.escaped) {
           r.violate(prop + "|" + klass + "|uncaught:" + out.excType, where + "\n" + out.excWhat + "\n" + out.excFrames);
@@ -306,20 +327,16 @@ inline void exploreConfig(const std::string& prop, const std::string& klass, con
         }
         // feed the whole log to a fresh model, tick by tick
         Model m(cfg);
+        m.keyDeadline = opt.keyDeadline;
         double now = 0;
-        size_t b = 0;
         std::string verdict;
         for (int t = 1; t <= (int)H2.size() && verdict.empty(); t++) {
           now += H2[t - 1].dt;
-          size_t e = b;
-          while (e < sim::calls.size() && (sim::calls[e].tick == t || sim::calls[e].method == "init")) e++;
-          // skip init records
           std::vector<sim::Call> tc;
-          for (size_t i = b; i < e; i++)
-            if (sim::calls[i].method != "init") tc.push_back(sim::calls[i]);
+          for (auto& c : sim::calls)
+            if (c.tick == t && c.method != "init") tc.push_back(c);
           verdict = m.tick(now, tc, 0, tc.size());
           if (!verdict.empty()) verdict = "tick " + std::to_string(t) + ": " + verdict;
-          b = e;
         }
         if (verdict.empty() && opt.extraRule) verdict = opt.extraRule(cfg, H2, sim::calls);
         if (!verdict.empty()) {
@@ -328,15 +345,17 @@ inline void exploreConfig(const std::string& prop, const std::string& klass, con
           std::ostringstream log;
           for (auto& c : sim::calls)
             if (c.method != "init")
-              log << "  t" << c.tick << " " << c.id << "." << c.method << " ret=" << c.ret << " rs=" << c.ruleset
-                  << " g=" << c.group << " uuid=" << c.uuid.substr(0, 6) << "\n";
+              log << "  tick" << c.tick << " t=" << c.t << " " << c.id << "." << c.method << " ret=" << "CSA"[c.ret]
+                  << " inst=" << c.instance << " rs=" << c.ruleset << " g=" << c.group << " uuid=" << c.uuid.substr(0, 6)
+                  << "\n";
           r.violate(prop + "|" + klass + "|model-mismatch:" + rule, where + "\n" + verdict + "\ncall log:\n" + log.str());
           return;
         }
-        std::string mk = m.key(now), ik = implKey(*o, cfg);
-        if (mk != ik) {
+        // state conformance is about pause / suspension; the deadline part is model-only
+        std::string mk = m.key(now), mk0 = m.key(now, false), ik = implKey(*o, cfg);
+        if (mk0 != ik) {
           r.violate(prop + "|" + klass + "|state-conformance",
-                    where + "\nmodel state " + mk + " implementation state " + ik);
+                    where + "\nmodel state " + mk0 + " implementation state " + ik);
           return;
         }
         outcomes.insert(mk + "|" + std::to_string(sim::calls.size()));
